@@ -27,7 +27,7 @@ ASSUMPTIONS = [
     "values are small integers stored as floats so additive sums are exact in any order (bitwise comparison is sound)",
     "coordinates are integers, as the class documents",
 ]
-PROBES = ["observation_sparse", "observation_end", "twin_instance_used_in_between", "rejected_malformed_values_all_new", "rejected_malformed_values", "coordinates_not_int64", "caller_mutates_arguments_after_add", "caller_mutates_returned_array", "integer_dtype_batch", "additive_cancels_to_zero", "dup_in_batch", "overlap_partial", "overlap_all", "overlap_unsorted_ge2", "batch_not_sorted", "additive_fresh_coordinate",
+PROBES = ["observation_sparse", "observation_end", "long_history", "twin_instance_used_in_between", "rejected_malformed_values_all_new", "rejected_malformed_values", "coordinates_not_int64", "caller_mutates_arguments_after_add", "caller_mutates_returned_array", "integer_dtype_batch", "additive_cancels_to_zero", "dup_in_batch", "overlap_partial", "overlap_all", "overlap_unsorted_ge2", "batch_not_sorted", "additive_fresh_coordinate",
           "absent_read_rejected", "empty_batch", "value_dim_gt1", "negative_coordinate", "query_with_duplicates"]
 
 
@@ -36,6 +36,11 @@ def run_history_c46(ch, tr: Trace) -> None:
         dim = ch.rng(1, 3)
         vdim = ch.rng(1, 3)
         box = ch.rng(1, 4)  # coordinates in [-1, box]
+        # a few long histories over a larger box: hundreds of stored coordinates (thresholds of caches, chunked
+        # allocation and the like are only crossed by sizes that short histories never reach)
+        long_run = ch.flag(1, 40)
+        if long_run:
+            box = ch.rng(5, 9)
     arr = SparseNdArray(dim, value_dim=vdim)
     model: dict = {}
     counter = [0]
@@ -252,7 +257,9 @@ def run_history_c46(ch, tr: Trace) -> None:
         Op("get_absent", 1, op_get_absent),
         Op("add_empty", 1, op_add_empty),
     ]
-    run_history(ch, tr, ops, 2, 14, diagnose=lambda w: check_all(w, force=True))
+    if long_run:
+        tr.probe("long_history")
+    run_history(ch, tr, ops, 2 if not long_run else 60, 14 if not long_run else 160, diagnose=lambda w: check_all(w, force=True))
     check_all("the end of the history", force=True)
     tr.emit("end", len(model))
 
